@@ -39,14 +39,23 @@ WaitOps  == {"wait", "poll", "try"}
 WaitSeqs == UNION {[1..n -> WaitOps] : n \in 1..3}
 WBase    == [Base EXCEPT !.nenv = 0]
 CfgsWait == {[b EXCEPT !.wseq = w] : b \in {WBase, [WBase EXCEPT !.io = <<"pipe", "inherit", "inherit">>]}, w \in WaitSeqs}
+\* Stdio::RawFd naming the caller's OWN standard descriptors: every table over inherit / RawFd(0) / RawFd(1) /
+\* RawFd(2) (identity such as stdout(RawFd(1)), the shell's 1>&2 and 2>&1, the same descriptor in two slots,
+\* swaps)
+AliasModes == {"inherit", "fd0", "fd1", "fd2"}
+CfgsAlias == {[WBase EXCEPT !.io = <<a, b, c>>] : a \in AliasModes, b \in AliasModes, c \in AliasModes} \ {WBase}
+\* a program file that is open for writing somewhere (execve says ETXTBSY without any injection)
+CfgsBusy == {[WBase EXCEPT !.prog = "busy"], [Rich EXCEPT !.prog = "busy", !.io = <<"null", "pipe", "inherit">>]}
+\* the commands on which the failures that do not go away are tried
+PersistCfgs == {WBase, [Rich EXCEPT !.io = <<"null", "pipe", "raw">>, !.gid = "other", !.uid = "unset"]} \cup CfgsBusy
 \* the same Command spawned twice (respawn = "same"), or with one more Command::arg in between ("arg")
 ReuseBases == {WBase,
                [Base EXCEPT !.nargs = 2, !.nenv = 2, !.cwd = "ok", !.pg = "own", !.io = <<"null", "pipe", "inherit">>, !.pre = <<0>>],
                [Base EXCEPT !.nargs = 0, !.pre = <<0, 0>>, !.io = <<"pipe", "null", "pipe">>],
                [Base EXCEPT !.prog = "missing"], [Base EXCEPT !.cwd = "missing", !.nenv = 2]}
 CfgsReuse == {[b EXCEPT !.respawn = r] : b \in ReuseBases, r \in {"same", "arg"}}
-CfgsQuick    == CfgsIo \cup CfgsIoRich \cup CfgsDimsQuick \cup CfgsWait \cup CfgsReuse
-CfgsThorough == CfgsIo \cup CfgsIoRich \cup CfgsDimsFull \cup CfgsWait \cup CfgsReuse
+CfgsQuick    == CfgsIo \cup CfgsIoRich \cup CfgsDimsQuick \cup CfgsWait \cup CfgsReuse \cup CfgsAlias \cup PersistCfgs
+CfgsThorough == CfgsIo \cup CfgsIoRich \cup CfgsDimsFull \cup CfgsWait \cup CfgsReuse \cup CfgsAlias \cup PersistCfgs
 CfgsTiny     == {Base, [Base EXCEPT !.io = <<"null", "pipe", "raw">>, !.cwd = "ok", !.uid = "own", !.gid = "own",
                                !.pg = "own", !.pre = <<0>>, !.nargs = 2, !.nenv = 2],
                  [Base EXCEPT !.cwd = "missing"], [Base EXCEPT !.pre = <<0, 13>>], [Base EXCEPT !.pre = <<-1>>],
@@ -55,26 +64,41 @@ CfgsTiny     == {Base, [Base EXCEPT !.io = <<"null", "pipe", "raw">>, !.cwd = "o
                  [Base EXCEPT !.io = <<"pipe", "inherit", "inherit">>],
                  [WBase EXCEPT !.respawn = "arg"], [Base EXCEPT !.nargs = 2, !.nenv = 2, !.respawn = "same"],
                  [Base EXCEPT !.prog = "missing", !.respawn = "arg"],
+                 [WBase EXCEPT !.io = <<"inherit", "fd2", "inherit">>], [WBase EXCEPT !.io = <<"inherit", "inherit", "fd1">>],
+                 [WBase EXCEPT !.io = <<"inherit", "fd1", "inherit">>], [WBase EXCEPT !.io = <<"inherit", "fd2", "fd2">>],
+                 [WBase EXCEPT !.prog = "busy"], WBase,
                  [WBase EXCEPT !.wseq = <<"poll", "wait">>], [WBase EXCEPT !.wseq = <<"wait", "try">>],
                  [WBase EXCEPT !.io = <<"pipe", "inherit", "inherit">>, !.wseq = <<"try", "poll", "try">>]}
 
-Fl(p, s, ks, es) == {[p |-> p, sys |-> s, k |-> k, err |-> e] : k \in ks, e \in es}
+Fl(p, s, ks, es) == {[p |-> p, sys |-> s, k |-> k, err |-> e, persist |-> FALSE] : k \in ks, e \in es}
+\* failures that do not go away: the first and every later call of s by p fails with e
+FlP(p, s, es) == {[p |-> p, sys |-> s, k |-> 1, err |-> e, persist |-> TRUE] : e \in es}
+\* every step with its plausible errnos, the retry-tempting ones included (EINTR 4, EAGAIN 11, ENOMEM 12,
+\* ETXTBSY 26).  Left out on purpose: EINTR on the parent's read of the sync pipe and EBUSY on dup3 - the
+\* code repeats those calls, as every implementation does, and a world in which they fail for ever has no
+\* way out
+FaultsPersist ==
+    FlP("C", "execve", {26, 11, 4, 12, 13}) \cup FlP("C", "dup3", {4, 9}) \cup FlP("C", "chdir", {4, 13})
+    \cup FlP("C", "setuid", {11, 1}) \cup FlP("C", "setgid", {4, 1}) \cup FlP("C", "setpgid", {4, 1})
+    \cup FlP("P", "openat", {4, 24}) \cup FlP("P", "pipe2", {4, 24}) \cup FlP("P", "fork", {11, 12})
+    \cup FlP("P", "wait4", {4, 10}) \cup FlP("P", "read", {5})
 \* one errno per call (quick); -3 = the read is forced to return 3 (short read)
 FaultsQuick ==
+    FaultsPersist \cup
     Fl("P", "openat", 1..3, {24}) \cup Fl("P", "pipe2", 1..4, {24}) \cup Fl("P", "fork", {1}, {11})
     \cup Fl("P", "close", {1}, {4}) \cup Fl("P", "read", {1}, {4, 5, -3}) \cup Fl("P", "wait4", {1, 2}, {10})
     \cup Fl("C", "close", {1}, {9}) \cup Fl("C", "dup3", 1..3, {9}) \cup Fl("C", "chdir", {1}, {13})
     \cup Fl("C", "setuid", {1}, {1}) \cup Fl("C", "setgid", {1}, {1}) \cup Fl("C", "setpgid", {1}, {1})
     \cup Fl("C", "execve", {1}, {13})
 FaultsThorough ==
-    FaultsQuick
+    FaultsQuick \cup FaultsPersist
     \cup Fl("P", "openat", 1..3, {12, 4}) \cup Fl("P", "pipe2", 1..4, {12, 23}) \cup Fl("P", "fork", {1}, {12})
     \cup Fl("P", "wait4", {1}, {4}) \cup Fl("P", "read", {1}, {9, -1})
     \cup Fl("C", "dup3", 1..3, {4, 24}) \cup Fl("C", "chdir", {1}, {2, 20}) \cup Fl("C", "setuid", {1}, {11, 22})
     \cup Fl("C", "setgid", {1}, {22}) \cup Fl("C", "setpgid", {1}, {3, 13}) \cup Fl("C", "execve", {1}, {2, 8, 12})
 
 NCount(c, m) == Cardinality({i \in 1..3 : c.io[i] = m})
-Applicable(c, f) ==
+ApplicableOnce(c, f) ==
     \/ f = NoFault
     \/ f.sys = "openat" /\ f.k <= NCount(c, "null")
     \/ f.sys = "pipe2" /\ f.k <= NCount(c, "pipe") + 1
@@ -86,6 +110,7 @@ Applicable(c, f) ==
     \/ f.sys = "setgid" /\ c.gid # "unset"
     \/ f.sys = "setpgid" /\ c.pg # "unset"
 
+Applicable(c, f) == ApplicableOnce(c, f) /\ (f.persist => c \in PersistCfgs)
 InitMC == Init /\ Applicable(cfg, fault)
 SpecMC == InitMC /\ [][Next]_vars_all
 
